@@ -59,6 +59,14 @@ type verifWorld struct {
 	outages    bool
 	acked      [2]bool // an upload for namespace i was acknowledged to a client
 	owns       bool    // this origin is in the blob's replica set
+
+	taskStoreFaults int // number of write-back task additions that failed (injected)
+
+	// mirrored: drive uploader + conflict handling + writeBack in the order the
+	// handlers call them instead of calling the handlers themselves (false
+	// everywhere since the round-2 seed that changed a handler body; kept as a
+	// switch for debugging a handler-plumbing problem).
+	mirrored bool
 }
 
 type verifBackend struct {
@@ -113,6 +121,7 @@ func (m *verifWriteBack) dir() string { return filepath.Join(m.w.root, "tasks") 
 func (m *verifWriteBack) Add(t persistedretry.Task) error {
 	wt := t.(*writeback.Task)
 	if m.w.outages && verif.Bool("task_store_down") {
+		m.w.taskStoreFaults++
 		return errors.New("task store: database is locked")
 	}
 	err := os.Mkdir(filepath.Join(m.dir(), wt.Namespace+"@"+wt.Name), 0o755)
@@ -230,14 +239,28 @@ func verifAck(err error) bool {
 // upload mirrors start / patch / commit of a cluster upload from the point
 // where the handlers have parsed the request (server.go:750, 813, 870).
 func (w *verifWorld) upload(s *Server, ns string, stopBeforeCommit bool) (uid string, acked bool) {
-	ctx := context.Background()
 	d := verifBlobDigest()
-	uid, err := s.uploader.start(d)
-	if err != nil {
-		return "", verifAck(s.handleUploadConflict(ctx, err, ns, d))
+	if w.mirrored {
+		ctx := context.Background()
+		uid, err := s.uploader.start(d)
+		if err != nil {
+			return "", verifAck(s.handleUploadConflict(ctx, err, ns, d))
+		}
+		if err := s.uploader.patch(d, uid, bytes.NewReader(verifBlob), 0, int64(len(verifBlob))); err != nil {
+			return "", verifAck(s.handleUploadConflict(ctx, err, ns, d))
+		}
+		if stopBeforeCommit {
+			return uid, false
+		}
+		return "", w.commit(s, ns, uid)
 	}
-	if err := s.uploader.patch(d, uid, bytes.NewReader(verifBlob), 0, int64(len(verifBlob))); err != nil {
-		return "", verifAck(s.handleUploadConflict(ctx, err, ns, d))
+	// the real handlers (handlers.go)
+	uid, err := s.verifStartH(ns, d)
+	if err != nil {
+		return "", verifAck(err)
+	}
+	if err := s.verifPatchH(ns, d, uid, verifBlob); err != nil {
+		return "", verifAck(err)
 	}
 	if stopBeforeCommit {
 		return uid, false
@@ -246,12 +269,15 @@ func (w *verifWorld) upload(s *Server, ns string, stopBeforeCommit bool) (uid st
 }
 
 func (w *verifWorld) commit(s *Server, ns, uid string) bool {
-	ctx := context.Background()
 	d := verifBlobDigest()
-	if err := s.uploader.commit(d, uid); err != nil {
-		return verifAck(s.handleUploadConflict(ctx, err, ns, d))
+	if w.mirrored {
+		ctx := context.Background()
+		if err := s.uploader.commit(d, uid); err != nil {
+			return verifAck(s.handleUploadConflict(ctx, err, ns, d))
+		}
+		return s.writeBack(ctx, ns, d, 0) == nil
 	}
-	return s.writeBack(ctx, ns, d, 0) == nil
+	return verifAck(s.verifCommitH(ns, d, uid))
 }
 
 // check: for every namespace with an acknowledged upload the blob is in that
